@@ -732,8 +732,16 @@ func (e *Engine) crashRestart(i int, op *Op) {
 	pikeupstream.ResetWithOnStats(nil, nil)
 	pikelocation.Reset(nil)
 	resetCompressDefaults()
-	for _, st := range e.stores {
+	for url, st := range e.stores {
 		st.setClosed(false) // a new process opens its stores anew
+		if op.NoStore {
+			pikestore.VerifUnregisterStore(url)
+		} else {
+			pikestore.VerifRegisterStore(url, st)
+		}
+	}
+	if op.NoStore {
+		e.hist.FaultFired["restart-store-cannot-be-opened"]++
 	}
 	e.epoch++
 	// restart with the current configuration on the same store
